@@ -12,7 +12,7 @@ Import ListNotations.
 From BB Require Import BN Brute SpaceFacts TrapFacts PercolateFacts AttractorFacts Diagram Invariants Checks Filter
   Strict PetriNet Control Meta FilterFacts PetriNetFacts TrappistFacts DiagramStruct DiagramSem1 DiagramCache
   DiagramDepth DiagramComplete Termination ControlFacts MetaFacts Candidates StrictFacts MinExpandFacts CandidatesFacts SymbolicTest SymbolicTestFacts Signed ReductionFacts ControlFacts2 Main Blocks BlocksFacts ObsFacts OwnerFacts CandidatesTerm
-  PartialOwner BlockMath BlockComplete ASeeds ASeedsFacts LogChecks SkipRule SkipRuleFacts Names NamesFacts Perm PermFacts SCC SCCFacts SCCStruct ControlFacts3 SCCTerm FilterSym Main2 StrategyFacts ControlFacts4 PyLib PySrc PySrcFacts SkipRuleFacts2 SCCComplete SCCAttr.
+  PartialOwner BlockMath BlockComplete ASeeds ASeedsFacts LogChecks SkipRule SkipRuleFacts Names NamesFacts Perm PermFacts SCC SCCFacts SCCStruct ControlFacts3 SCCTerm FilterSym Main2 StrategyFacts ControlFacts4 PyLib PySrc PySrcFacts SkipRuleFacts2 SCCComplete SCCAttr BlockComplete2.
 
 Theorem C15_step_SWF : forall (fuel : nat) (N : net) (cfg : config) (d : sd) (o : op), SWF N d -> SWF N (fst (step fuel N cfg d o)).
 Proof. exact step_SWF. Qed.
@@ -47,6 +47,13 @@ Proof. exact expand_block_SWF. Qed.
 Theorem C15_block_expansion_extends : forall (fuel : nat) (N : net) (cfg : config) (d : sd) (maa opt : bool) (sz : option nat) (tape : list bool), SWF N d -> extends d (fst (expand_block fuel N cfg d maa opt sz tape)).
 Proof. exact expand_block_extends. Qed.
 
+(* a block expansion that reports completion on a partially expanded diagram (e.g. after a size-limited run) has found every minimal trap space *)
+Theorem C15_block_expansion_resumes : forall (fuel : nat) (N : net) (cfg : config) (d d' : sd) (maa opt : bool) (sz : option nat) (tape : list bool), 1 <= max_motifs cfg -> PlainInv N d -> expand_block fuel N cfg d maa opt sz tape = (d', RBool true) -> MinFound N d'.
+Proof. exact expand_block_MinFound_from. Qed.
+
+Theorem C15_block_expansion_resumes_attractors : forall (fuel : nat) (N : net) (cfg : config) (d d' : sd) (opt : bool) (sz : option nat) (tape : list bool), 1 <= max_motifs cfg -> PlainInv N d -> expand_block fuel N cfg d true opt sz tape = (d', RBool true) -> clean_log_ok N (fst (expand_block_log fuel N cfg d true opt sz tape)) -> AttrServed N d'.
+Proof. exact expand_block_AttrServed_from. Qed.
+
 Print Assumptions C15_step_SWF.
 Print Assumptions C15_step_Faithful_all.
 Print Assumptions C15_step_NoStubEdges.
@@ -57,3 +64,5 @@ Print Assumptions C15_bfs_complete.
 Print Assumptions C15_dfs_complete.
 Print Assumptions C15_block_expansion_any_result.
 Print Assumptions C15_block_expansion_extends.
+Print Assumptions C15_block_expansion_resumes.
+Print Assumptions C15_block_expansion_resumes_attractors.
